@@ -3,7 +3,7 @@
 
   Quantifier: every configuration `c : Cfg` (any middleware/group/route/action layout, any handler
   programs, panics of every value kind at any position and phase, failed injections) with
-  flamego.Recovery() in some slot `r`, both environments.
+  flamego.Recovery() in some slot `r`, both environments, request method HEAD or not (`c.head`).
   Standing hypotheses (`Installed c r`):
     * `c.onceBug = false` — the response writer does not lose its Once to a panicking Before hook.
       The real writer does (finding F15, `f15_as_is` below); sessions with such hooks are matched by
@@ -86,7 +86,7 @@ theorem recovery_frame_status (c : Cfg) (hb : c.onceBug = false) (runF : St → 
     (v : PVal) (j : Nat) (hr : runF (st.ev (.enter i)) = (s1, some (v, j))) (hw : WOK s1.w) :
     let s' := (invoke c runF i .recovery st).1
     s'.w.status = finStatus s1.w.status ∧ Ev.recovered i j s1.w.status ∈ s'.trace ∧
-      s'.out = s1.out ++ [recTok c] ∧ (invoke c runF i .recovery st).2 = none := by
+      s'.out = (if c.head then s1.out else s1.out ++ [recTok c]) ∧ (invoke c runF i .recovery st).2 = none := by
   have hw2 := recoverWrite_spec hb i (s1.ev (.recovered i j s1.w.status))
   rw [invoke_rec_caught hr hw2]
   refine ⟨?_, by simp [St.ev], by simp [St.ev, recTok], rfl⟩
@@ -114,13 +114,14 @@ theorem body_detail_only_in_dev (c : Cfg) (h : Tok.detail ∈ (serve c).out) : c
       intro i n s h
       unfold doBody at h; split at h
       · exact Or.inl (by simpa [spendOnce] using h)
-      · simp at h; exact Or.inl h
+      · rcases (outStep c.head s.out (Tok.xs n)).2.1 _ h with h | h
+        · exact Or.inl h
+        · cases h
     recov := by
       intro r j s h
       unfold recoverWrite at h; split at h
       · exact Or.inl (by simpa [spendOnce, St.ev] using h)
-      · simp only [St.ev, List.mem_append, List.mem_singleton] at h
-        rcases h with h | h
+      · rcases (outStep c.head s.out (if c.dev = true then Tok.detail else Tok.plain)).2.1 _ h with h | h
         · exact Or.inl h
         · right
           by_cases hd : c.dev = true
@@ -129,7 +130,7 @@ theorem body_detail_only_in_dev (c : Cfg) (h : Tok.detail ∈ (serve c).out) : c
     cancel := fun _ h => Or.inl h
     hook := fun _ h => Or.inl h }
   obtain ⟨_, st1, p, hr, _, _, _, _, ho⟩ := serve_ext c
-  have := run_rel ok c.codesOK_true c.fuel {}
+  have := run_rel ok c.codesOK_true c.fuel c.st0
   rw [hr] at this
   rw [ho] at h
   rcases this h with h | h
@@ -137,11 +138,12 @@ theorem body_detail_only_in_dev (c : Cfg) (h : Tok.detail ∈ (serve c).out) : c
   · exact h
 
 /-- …and every Recovery that caught a panic sent the body of the environment: the page in
-    development, the plain "Internal Server Error" otherwise. -/
+    development, the plain "Internal Server Error" otherwise (for a HEAD request the writer forwards
+    no body at all, C13). -/
 theorem body_by_environment (c : Cfg) (hb : c.onceBug = false) (hc : c.codesOK (fun code => 100 ≤ code))
-    (r j s : Nat) (h : Ev.recovered r j s ∈ (serve c).trace) :
+    (hh : c.head = false) (r j s : Nat) (h : Ev.recovered r j s ∈ (serve c).trace) :
     (if c.dev then Tok.detail else Tok.plain) ∈ (serve c).out :=
-  (serve_mono c hb hc r j s h).2
+  (serve_mono c hb hc r j s h).2 hh
 
 /-! ### "middleware placed before Recovery still completes its code after Next()" -/
 
